@@ -3191,9 +3191,23 @@ fn kv_create_runner() {
         assert_eq!((first.as_str(), second.as_str()), ("#SHAPE=<7>\n0 1 0 1 0 0 0\n", "#SHAPE=<7>\n0 0 0 1 0 0 1\n"), "the two halves on their own");
     }
     if CHECK_STRICT {
-        let (code, out, err) = create(&vcf(&complete), &["--strict"]);
-        assert!(code == Some(1) && out.is_empty(), "a strict run over a record with a missing genotype must fail without a spectrum: status {code:?}, stdout {out:?}");
-        assert!(err.contains("chr1:27"), "the strict failure must name the first record that would be skipped (chr1:27): {err}");
+        for verbosity in [vec![], vec!["-v"], vec!["-vv"], vec!["-q"], vec!["-qq"]] {
+            let mut flags = verbosity.clone();
+            flags.push("--strict");
+            let (code, out, err) = create(&vcf(&complete), &flags);
+            assert!(code == Some(1) && out.is_empty(), "a strict run ({flags:?}) over a record with a missing genotype must fail without a spectrum: status {code:?}, stdout {out:?}");
+            assert!(err.contains("chr1:27"), "the strict failure ({flags:?}) must name the first record that would be skipped (chr1:27): {err}");
+            // and the lenient run is the same spectrum at every verbosity
+            let (code, out, _) = create(&vcf(&complete), &verbosity);
+            assert_eq!((code, out.as_str()), (Some(0), "#SHAPE=<7>\n0 1 0 2 0 0 1\n"), "lenient run with {verbosity:?}");
+        }
+        // every skipped record is counted as skipped, also when records share a position across contigs
+        let same_pos = [("chr1", 8usize, ["./.", "0/1", "0/0"]), ("chr2", 8, ["0/1", "./.", "0/0"]), ("chr2", 9, ["0/1", "0/0", "0/0"])];
+        let (code, out, err) = create(&vcf(&same_pos), &["-v"]);
+        assert_eq!((code, out.as_str()), (Some(0), "#SHAPE=<7>\n0 1 0 0 0 0 0\n"), "records sharing a position: {err}");
+        assert!(err.contains("2/3"), "two of the three records must be reported as skipped (summary line 'Skipped 2/3 sites'): {err}");
+        let (code, out, err) = create(&vcf(&same_pos[1..]), &["--strict"]);
+        assert!(code == Some(1) && out.is_empty() && err.contains("chr2:8"), "strict run must fail at chr2:8: status {code:?}, {err}");
         // also when a later record is unreadable for another reason
         let mut with_haploid = complete.to_vec();
         with_haploid.push(("chr2", 30, ["0", "0/1", "0/0"]));
